@@ -86,6 +86,9 @@ def raw_apps(iface):
                 app.calls += 1
                 if shape == "raise_before":
                     raise Boom("before")
+                if shape == "list_caps":  # a plain WSGI app is free to capitalise header names
+                    start_response("200 OK", [("Content-Type", "text/plain"), ("Set-Cookie", "a=1"), ("Set-Cookie", "b=2"), ("X-Multi", "1"), ("X-Multi", "2"), ("x-multi", "3")])
+                    return [b"hello"]
                 start_response("200 OK", [("content-type", "text/plain"), ("set-cookie", "a=1"), ("set-cookie", "b=2"), ("x-multi", "1"), ("x-multi", "2")])
                 if shape == "list":
                     return [b"hello"]
@@ -129,7 +132,7 @@ def raw_apps(iface):
             app.calls = 0
             app.closed = 0
             return app
-        return {s: (lambda s=s: mk(s)) for s in ("list", "list2", "tuple", "empty", "empty_iter", "gen", "closeable", "raise_before", "raise_after_start", "raise_after_chunk")}
+        return {s: (lambda s=s: mk(s)) for s in ("list", "list_caps", "list2", "tuple", "empty", "empty_iter", "gen", "closeable", "raise_before", "raise_after_start", "raise_after_chunk")}
 
     def amk(shape):
         async def app(scope, receive, send):
